@@ -278,10 +278,14 @@ class AdiabaticModel_(ElectronicModel_):
 
     def update(self, X: ArrayLike, electronics: Any = None, couplings: Any = None, gradients: Any = None) -> 'AdiabaticModel_':
         out = cp.copy(self)
-        if electronics:
-            self._reference = electronics._reference
+        # like ElectronicModel_.update: take the sign reference from the previous point if there is one,
+        # but never store it on the shared model object (later, unrelated computations would inherit it)
+        if electronics and electronics._reference is not None:
+            reference = electronics._reference
+        else:
+            reference = self._reference
         out._position = X
-        out.compute(X, couplings=couplings, gradients=gradients, reference=self._reference)
+        out.compute(X, couplings=couplings, gradients=gradients, reference=reference)
         return out
 
     def _compute_basis_states(self, V: ArrayLike, reference: Any = None) -> Tuple[ArrayLike, ArrayLike]:
